@@ -76,7 +76,13 @@ class HumanMessageSerializer:
                 continue
 
             if line.startswith("["):
-                cur_block = Block(re.search(r"\w+", line).group(0))
+                block_name = re.search(r"\w+", line).group(0)
+                # Block that's present but has no entries (variable block with a 0 count)
+                if re.search(r"#\s*Empty\s*$", line):
+                    msg.create_block_list(block_name)
+                    cur_block = None
+                    continue
+                cur_block = Block(block_name)
                 msg.add_block(cur_block)
             else:
                 expr_match = re.match(r"^\s*(\w+)\s*(=[|$]*)\s*(.*)$", line)
@@ -163,6 +169,9 @@ class HumanMessageSerializer:
             block_suffix = ""
             if template and template.get_block(block_name).block_type == MsgBlockType.MBT_VARIABLE:
                 block_suffix = '  # Variable'
+            if not block_list:
+                # Present, but without any entries. Distinct from the block being omitted entirely.
+                string += f"[{block_name}]  # Empty\n"
             for block_num, block in enumerate(block_list):
                 string += f"[{block_name}]{block_suffix}\n"
                 for var_name, val in block.items():
